@@ -18,6 +18,7 @@ pub mod c15;
 pub mod c17;
 pub mod c18;
 pub mod c07;
+pub mod replay;
 
 pub fn dispatch(ctx: &Ctx) -> Rec {
   match ctx.prop.as_str() {
@@ -40,6 +41,7 @@ pub fn dispatch(ctx: &Ctx) -> Rec {
     "C18" => c18::run(ctx),
     "C07" => c07::run(ctx),
     "dump-corpus" => dump_corpus(ctx),
+    "replay" => replay::run(ctx),
     other => {
       eprintln!("unknown property {}", other);
       std::process::exit(64);
